@@ -10,6 +10,21 @@ from vlib import props, units, verus_run, typelevel  # noqa: E402
 VERIF = os.path.dirname(os.path.dirname(os.path.abspath(__file__)))
 
 NOT_APPLICABLE = {
+    "C07": "totality of compilation needs contracts over the recursive-descent parser, the optimizer and the emitter: "
+           "recursion over ir::Node, Peekable, String and hashbrown do not close under Kani (10 min / 6-20 GB) and are "
+           "rejected by Verus; stack exhaustion is outside both tools' models; the few numeric helpers that do verify do "
+           "not address 'any input yields Ok or Err'",
+    "C11": "every table needs an independent Unicode 17 oracle; only std's White_Space/Alphabetic-style predicates exist "
+           "in the sandbox (2-6 of ~300 tables) and the table harnesses were not built in this revision; nothing is claimed",
+    "C14": "the utf16 decoder contracts (A6) are feasible (loop-free, A3-shaped) but were not built in this revision; "
+           "whole-search agreement with UTF-8 needs C01-level composition; nothing is claimed",
+    "C17": "expand_replacement/replace* are String/Peekable<Chars> code: the bounded harness that was written "
+           "(j2_expand_replacement_2) does not terminate under CBMC within 10 min / memory cap, and Verus rejects "
+           "Peekable and str byte reasoning; a run that does not terminate is not evidence",
+    "C18": "escape() builds a String (harness j4_escape_char does not terminate under CBMC) and the 'matches exactly s' "
+           "half needs the parser and C01-level composition; nothing is claimed",
+    "C20": "the Searcher single-step tiling contract (J6) is F1-shaped and feasible but was not built in this revision; "
+           "nothing is claimed",
     "C08": "acceptance of exactly L(ES2025 Pattern[flags]) needs a grammar specification and a contract over the whole "
            "recursive-descent parser (Peekable/HashMap/String: rejected by Verus, intractable through try_parse in "
            "Kani); the table-like pieces are discharged under C18/C12",
